@@ -33,3 +33,14 @@ def validate_x448(x, inf):
     curve = _montgomery.curve448_curve()
     curve.validate(StubXPoint(x, inf))
     return curve
+
+
+# ---------------------------------------------------------------------------------------------------- ECDH symmetry (C06)
+from Crypto.Protocol.DH import _compute_ecdh
+
+
+def ecdh_both_parties(priv_a, pub_a, priv_b, pub_b):
+    """what the two parties of a Diffie-Hellman exchange compute from their own private key and the peer's public key"""
+    z_a = _compute_ecdh(priv_a, pub_b)
+    z_b = _compute_ecdh(priv_b, pub_a)
+    return (z_a, z_b)
